@@ -5,6 +5,16 @@ cd "$(dirname "$0")"
 export CARGO_NET_OFFLINE=true
 mkdir -p build evidence replays
 python3 tools/translate.py >/dev/null
-(cd lean && lake build RsslVerif rsslmodel 2>&1 | grep -v conda | tail -5)
+MODS=$(python3 - <<'PY'
+import glob, importlib, os, sys
+sys.path.insert(0, os.getcwd()); sys.path.insert(0, os.path.join(os.getcwd(), "tools"))
+mods = []
+for f in sorted(glob.glob("checks/c[0-9][0-9].py")):
+    spec = importlib.import_module("checks." + os.path.basename(f)[:-3]).SPEC
+    mods += spec.get("lean_modules", [])
+print(" ".join(dict.fromkeys(mods)))
+PY
+)
+(cd lean && lake build $MODS rsslmodel 2>&1 | grep -v conda | tail -5)
 (cd harness && cargo build --offline 2>&1 | grep -v conda | tail -3)
 echo "setup done"
